@@ -503,6 +503,9 @@ def header_corruptions(g):
             h.zr[idx] = repr(fn(float(g.zr[idx])))
             out.append((f"zr{idx}_{name}", h))
     h = g.copy()
+    h.sn = [g.sn[0], g.sn[0]]
+    out.append(("sn_degenerate", h))
+    h = g.copy()
     h.zr = [g.zr[0]]
     out.append(("zr_one_field", h))
     h = g.copy()
@@ -581,7 +584,7 @@ def draw_corruption(tape, g, i):
         h = g.copy()
         r = tape.draw(len(h.rows), f"c{i}.row")
         c = tape.draw(len(h.rows[0]), f"c{i}.col")
-        h.rows[r][c] = tape.pick(BLANK_TOKENS + ["1.70140e38", "1.7014e38", "1.70141e37", "1.70141000918780004e+38", "1.701409e38"], f"c{i}.tok")
+        h.rows[r][c] = tape.pick(BLANK_TOKENS + ["1.70140e38", "1.7014e38", "1.70141e37", "1.70141000918780004e+38", "1.701409e38", "-0.0", "-0", "+0", "-1.70141e38"], f"c{i}.tok")
         return f"blankcell({r},{c})={h.rows[r][c]}", h.render()
     lines = text.split(g.eol)
     j = tape.draw(5, f"c{i}.hline")
